@@ -3,10 +3,10 @@
 package main
 
 import (
-	"unicode"
 	"bytes"
 	"fmt"
 	"strings"
+	"unicode"
 	"unicode/utf8"
 
 	cm "zombiezen.com/go/commonmark"
